@@ -7,7 +7,17 @@
 // the two results must be byte-equal; the state invariant demands Decrypt == model plaintext (in [0,N) and in the
 // symmetric range), Open == (model plaintext, model nonce), re-encryption of the opening == c, and c == reference
 // formula. Separate CT sections enumerate the refusals (out-of-range plaintexts, non-unit nonces, non-members of
-// Z*_{N²}, foreign-key ciphertexts) and the two building blocks Representative / IdentityNoise.
+// Z*_{N²}, foreign-key ciphertexts), the two building blocks Representative / IdentityNoise, and ElGamal key
+// construction (degenerate secrets, non-canonical generators).
+//
+// Deviations from DESIGN §5 C16 (spirit kept: complete enumeration of a stated finite space, independent oracle):
+//   - states are merged by (ciphertext bytes, model) instead of exploring the raw history tree; every transition is still
+//     executed and checked, only the re-expansion of an already expanded state is skipped;
+//   - the binary CiphertextOp takes as second operand a fresh Encrypt(m';r') over the whole alphabet, the state itself
+//     (c·c) or twice the state (variadic form), not an arbitrary second reachable state;
+//   - quick depth is 3 (Encrypt + 2 steps) on 256/512-bit keys; thorough goes to depth 5/4/4/3 on 256/512/1024/2048;
+//   - "ciphertexts outside Z*_{N²} are refused by Decrypt": such a value cannot be wrapped through the public API, so the
+//     rule is checked where it is enforced (NewCiphertext) and Decrypt/Open are checked against foreign-key ciphertexts.
 package c16
 
 import (
@@ -56,12 +66,13 @@ func guard[T any](f func() (T, error)) (out T, err error) {
 type fail struct{ key, msg string }
 
 func TestCheck(t *testing.T) {
-	engine.Rule("BFS over operation histories on one live ciphertext: depth-1 states are ALL Encrypt(m,r) over the plaintext x nonce alphabets; every further step applies EVERY operation of the alphabet {CiphertextOp with a fresh Encrypt(m',r') (all m',r'), CiphertextOp(c,c), CiphertextOp(c,c,c), CiphertextOpInv, CiphertextScalarOp(k) for all scalars, Shift(m') for all plaintexts, ReRandomise(r') for all nonces}, each through the PublicKey AND the SecretKey method. A state is distinct by (ciphertext bytes, announced limb length, model plaintext, model nonce); states with the same key are merged because ciphertexts are immutable values and every later operation is a function of the value only. Every transition (also into an already known state) is executed on the real code and checked. Non-trivial = the library produced a ciphertext and it was compared with the reference formula, decrypted and opened.")
+	engine.Rule("BFS over operation histories on ONE live ciphertext per key. Depth-1 states are ALL Encrypt(m;r) over plaintexts {0,1,2,N-1,h,h+1,-1,-h} (h=floor(N/2); the two negative ones through NewPlaintextSymmetric) x nonces {1,2,N-1,fixed unit u}. Every further step applies EVERY operation of the alphabet: CiphertextOp(c, fresh Encrypt(m';r')) for all 32 (m';r'), CiphertextOp(c,c), CiphertextOp(c,c,c), CiphertextOpInv, CiphertextScalarOp(k) for k in {0,1,-1,2,N,N+1,-N,2^64}, Shift(m') for all 8 plaintexts, ReRandomise(r') for all 4 nonces = 55 operations, each executed through the PublicKey method AND the SecretKey method (results must be byte-equal), together with the matching Plaintext*/Nonce* operations of both keys against the math/big model. ElGamal: the same shape with plaintexts mu*G for mu in {0,1,2,q-1,h,h+1,w}, nonces {1,2,q-1,w}, scalars {0,1,q-1,2,2^64,w}, secrets a in {2,q-1,w} (48 operations). A state is distinct by (ciphertext bytes, announced length, model plaintext, model nonce); states with equal keys are merged (their futures are equal because ciphertexts are immutable values), but EVERY transition, also into a known state, is executed on the real code and its target is checked by the full invariant. Non-trivial = the library returned a ciphertext and it was compared byte-for-byte with the reference formula, decrypted, opened and re-encrypted.")
 	engine.Assume(
-		"math/big and the textbook reference in /verif/mc/ref/paillier (plain modular exponentiation, L-function decryption) are correct",
-		"ElGamal oracle: the predicted ciphertext (rho*G, (mu+rho*a)*G) is computed from exponents combined in math/big, once with one library ScalarBaseMul per component and once with the affine math/big curve arithmetic of /verif/mc/ref/curve (constants typed in from the standards)",
-		"state merging assumes a library ciphertext's behaviour depends only on its value and announced length (documented immutable)",
-		"key sizes 256/512 (quick) and 1024/2048 (thorough) bits built from fixed primes via znstar.NewPaillierGroup; the library's key-size floor is relaxed because the check is a test binary (testing.Testing())",
+		"math/big and the textbook reference in /verif/mc/ref/paillier (plain modular exponentiation c=(1+N)^m r^N mod N^2, L-function decryption, N-th root by N^-1 mod lambda) are correct",
+		"ElGamal oracle: the predicted ciphertext (rho*G, (mu+rho*a)*G) is computed from exponents combined in math/big, once with ONE library scalar multiplication of the generator per component and once on the affine math/big curves of /verif/mc/ref/curve (constants typed in from the standards; delta as the reference sum mu*G + (rho*a)*G); library points are read through AffineX/AffineY/IsZero",
+		"state merging assumes that a library ciphertext behaves as a function of its value (Paillier: value and announced length; ElGamal: the two curve points, independent of their projective representatives, which is property C14)",
+		"Paillier keys of 256/512 bits (quick) and additionally 1024/2048 bits (thorough) in the flavours general (p,q = 1 mod 4), Blum (not safe) and safe-prime, built from fixed primes via znstar.NewPaillierGroup; the key-size floor is relaxed because the check is a test binary (testing.Testing())",
+		"a value outside Z*_{N^2} cannot be wrapped as a Ciphertext through the non-CBOR public API, so the membership rule is checked at NewCiphertext (both group views) and Decrypt/Open are checked to refuse ciphertexts of a different key; the CBOR decoder is covered by C12",
 		"purego build of the library",
 	)
 	if f := os.Getenv("VERIF_C16_ONLY"); f != "" {
